@@ -73,9 +73,7 @@ type UserInfoEmail struct {
 type Bool bool
 
 func (bs *Bool) UnmarshalJSON(data []byte) error {
-	if string(data) == "true" || string(data) == `"true"` {
-		*bs = true
-	}
+	*bs = string(data) == "true" || string(data) == `"true"`
 
 	return nil
 }
